@@ -289,6 +289,12 @@ def handle (line : String) : String :=
         | some (sh, []) => shRes (parseSheet vfs h sh)
         | _ => "bad-op"
       | _, _ => "bad-op"
+  | "resolvetree" :: h :: ws => match decCps h, pVfs ws with
+      -- `resolveImports` on a sheet given in its loaded state (after DOM edits): the tree as it is
+      | some h, some (vfs, ws) => match pSheet (ws.length + 1) ws with
+        | some (sh, []) => shRes (resolveImports vfs .user h sh) false
+        | _ => "bad-op"
+      | _, _ => "bad-op"
   | "resolve" :: h :: ws => match decCps h, pVfs ws with
       | some h, some (vfs, ws) => match pSheet (ws.length + 1) ws with
         | some (sh, []) =>
